@@ -183,6 +183,78 @@ def job_clause(n, rounds, settings, clause, timeout_s=600, tag=""):
                     validated=1, **common)
 
 
+def day_rows(n, byes=True):
+    """all day-wise consistent rows (a matching with orientations; optionally byes)"""
+    rows = []
+
+    def rec(row, free):
+        if not free:
+            rows.append(tuple(row))
+            return
+        a, rest = free[0], free[1:]
+        if byes:
+            rec(row, rest)
+        for b in rest:
+            r2 = [x for x in rest if x != b]
+            for (h, w) in ((a, b), (b, a)):
+                rr = list(row)
+                rr[h], rr[w] = w + 1, -(h + 1)
+                rec(rr, r2)
+    rec([0] * n, list(range(n)))
+    return rows
+
+
+def job_documented_split(n, rounds, settings, case_ids, byes, timeout_s=300):
+    """documented per-rule count on ALL day-wise consistent plans: each day is one of the consistent rows (selector
+    variable per day); the first two days are enumerated (this job handles the pairs in case_ids), the rest is symbolic"""
+    from symx.core import SymArray, fresh_array, lift, mk
+    days = (n - 1) * rounds
+    rows = day_rows(n, byes)
+    ce = T.sym_count_errors()
+
+    def h(eng):
+        sels = [z3.Int(f"sel_{d}") for d in range(days)]
+        cells = []
+        for d in range(days):
+            for t in range(n):
+                e = z3.IntVal(rows[0][t])
+                for k in range(1, len(rows)):
+                    e = z3.If(sels[d] == k, z3.IntVal(rows[k][t]), e)
+                cells.append(mk(e))
+        y = SymArray(cells, (days, n), name="y")
+        t1 = fresh_array("t1", (n * (n - 1) // 2,))
+        t2 = fresh_array("t2", (n, n))
+        res = ce(y, *settings, t1, t2)
+        return util.Box(y=y, res=lift(res), sels=sels)
+    eng, box = util.single_path(h)
+    Y = [[lift(box.y[d, t]) for t in range(n)] for d in range(days)]
+    spec = T.documented_count(Y, n, days, rounds, [z3.IntVal(v) for v in settings])
+    goal = box.res != spec
+    results = []
+    for cid in case_ids:
+        a, b = cid // len(rows), cid % len(rows)
+        g = z3.simplify(z3.substitute(goal, (box.sels[0], z3.IntVal(a)), (box.sels[1], z3.IntVal(b))))
+        cons = [z3.And(s_ >= 0, s_ < len(rows)) for s_ in box.sels[2:]]
+        r = backend.solve(cons, g, timeout_s=timeout_s, label=f"documented split {a},{b}")
+        results.append(r)
+        if r.status != "unsat":
+            q, st = util.qstats(results)
+            common = dict(paths=1, queries=q, solver_s=st)
+            if r.status == "unknown":
+                return inconclusive(f"unknown at day rows {a},{b}: {r.detail}", **common)
+            sel = [a, b] + [int(r.model.get(f"sel_{d}", 0)) for d in range(2, days)]
+            plan = [list(rows[k]) for k in sel]
+            w = dict(plan=plan, settings=list(settings), n=n, rounds=rounds, clause="documented_count")
+            bad, info = replay(w)
+            w["observed"] = info
+            if bad:
+                return violated("documented_count", "ttp/errors.py:count_errors", f"documented_count: plan={plan} settings={list(settings)} -> {info}", w, validated=1, **common)
+            return inconclusive(f"model does not replay {w}", **common)
+    q, st = util.qstats(results)
+    return held(paths=1, queries=q, solver_s=st, summary=f"documented count n={n} rounds={rounds} settings={settings}: {len(case_ids)} first-two-day cases x all later days: unsat",
+                sample=dict(query="value != documented per-rule count on a day-wise consistent plan", rows_per_day=len(rows), cases=len(case_ids), answer="unsat"))
+
+
 def job_selftest(seed):
     bad = 0
     cnt = 0
@@ -219,18 +291,38 @@ def jobs(tier):
                           dict(n=4, rounds=1, settings=S, clause=cl, timeout_s=120), cl, 200))
             js.append(Job(f"{cl}/n2/r2/{'-'.join(map(str, S))}", job_clause,
                           dict(n=2, rounds=2, settings=S, clause=cl, timeout_s=120), cl, 200))
+    # settings with different limits for home and away streaks / tight separation (the shipped instances all use 1,3,1,3,1,6)
+    for S in ((2, 3, 1, 3, 1, 3), (1, 2, 3, 3, 0, 2), (3, 3, 1, 2, 2, 3)):
+        for cl in CLAUSES:
+            js.append(Job(f"{cl}/n4/r1/{'-'.join(map(str, S))}", job_clause, dict(n=4, rounds=1, settings=S, clause=cl, timeout_s=300), cl, 400))
     if tier == "thorough":
         for rounds in (1, 2):
             for cl in CLAUSES:
+                if cl == "documented_count":
+                    continue     # with symbolic settings the sum-vs-sum equality is not decided (unknown); concrete settings below
                 js.append(Job(f"{cl}/n4/r{rounds}/symbolic-settings", job_clause,
                               dict(n=4, rounds=rounds, settings=None, clause=cl, timeout_s=1500), cl, 1700, weight=10))
+        # documented count for six days: all 12^6 day-wise consistent plans without byes (the property's quantifier), split over
+        # the first two days; plus extreme concrete settings for the three-day league
+        nrows = len(day_rows(4, False))
+        for rounds, S in distinct:
+            if rounds != 2:
+                continue
+            ids = list(range(nrows * nrows))
+            per = 6
+            for k in range(0, len(ids), per):
+                js.append(Job(f"documented_count/n4/r2/{'-'.join(map(str, S))}/split{k // per}", job_documented_split,
+                              dict(n=4, rounds=2, settings=S, case_ids=ids[k:k + per], byes=False), "documented_count", 2400, weight=3))
+        for S in ((1, 1, 1, 1, 0, 0), (3, 3, 3, 3, 3, 3), (1, 7, 1, 7, 0, 7), (2, 2, 1, 3, 1, 1)):
+            for cl in CLAUSES:
+                js.append(Job(f"{cl}/n4/r1/{'-'.join(map(str, S))}", job_clause, dict(n=4, rounds=1, settings=S, clause=cl, timeout_s=600), cl, 700))
     return js
 
 
 def meta(tier):
     return dict(
         bounds=dict(teams=[2, 4], rounds=[1, 2], plan_entries="-n..n (all values, self-play where in range)",
-                    settings="quick: settings of the shipped four-team instances; thorough: additionally all admissible "
+                    settings="quick: settings of the shipped four-team instances plus three asymmetric settings (home/away limits differ, tight separation) for the single round robin; thorough: additionally all admissible "
                              "settings (symbolic, 1<=min<=max<=rounds*n-1)"),
         outside=["n >= 6", "rounds >= 3", "plans on which count_errors leaves its arrays (C13)"],
         assumptions=ASSUMPTIONS, stubs=STUBS)
